@@ -333,6 +333,70 @@ def replay_wsgi(ctx, g):
     return n_edges
 
 
+def run_stream_wsgi(ctx, wd):
+    """the thread-free WSGI StreamResponse: every next()/close() sequence of StreamWsgi.tla on the real class"""
+    import baize.wsgi as W
+    tlc.sany(wd + "/StreamWsgi.tla")
+    K = dict(MaxN=3)
+    tlc.write_mc(wd, "MC_StreamWsgi", "StreamWsgi", constants=K,
+                 cfg_lines=["SPECIFICATION Spec", "CHECK_DEADLOCK FALSE", "INVARIANT ClosedOnce", "INVARIANT InOrder"])
+    res = tlc.run_tlc(wd, "MC_StreamWsgi", dump=True, workers=4)
+    ctx.add_tlc("StreamWsgi", res, K)
+    if res.violated:
+        raise common.MachineryError("StreamWsgi.tla: " + tlc.describe(res))
+    tlc.check_coverage(res, ["SrvNext", "SrvClose"])
+    g = graph.Graph.load(res.dot)
+    parent = g.bfs_tree()
+    keep = []      # the application keeps references to its responses (a registry, a traceback ...): no help from the garbage collector
+    for a, lab, b in g.edges():
+        init, path = g.path_to(parent, a)
+        st0, exp = g.state(init), g.state(b)
+        log = []
+
+        def gen(n=st0["n"], ra=st0["raiseAt"], log=log):     # (bind this run's log: older generators are finalised later)
+            try:
+                for i in range(1, n + 1):
+                    if ra == i:
+                        raise ProducerError("item %d" % i)
+                    yield b"item:%d;" % i
+                if ra == n + 1:
+                    raise ProducerError("end")
+            finally:
+                log.append("cleaned")
+        resp = W.StreamResponse(gen())
+        keep.append(resp)
+        it = iter(resp({"REQUEST_METHOD": "GET"}, lambda *x, **k: None))
+        got, outcome = [], "open"
+        for l in [x for x, _ in path] + [lab]:
+            name, _ = graph.parse_action(l)
+            try:
+                if name == "SrvNext":
+                    got.append(next(it))
+                else:
+                    it.close()
+                    outcome = "closed"
+            except StopIteration:
+                outcome = "exhausted"
+            except ProducerError:
+                outcome = "raised"
+            except BaseException as e:  # noqa
+                outcome = "error:" + type(e).__name__
+        ctx.count()
+        ctx.traces_validated += 1
+        obs = {"delivered": len(got), "cleaned": len(log), "outcome": outcome}
+        want = {"delivered": exp["pos"], "cleaned": exp["cleaned"], "outcome": exp["outcome"]}
+        case = {"wsgi_stream_items": st0["n"], "raise_at": st0["raiseAt"], "calls": [x for x, _ in path] + [lab]}
+        if got != [b"item:%d;" % i for i in range(1, len(got) + 1)]:
+            ctx.violation(case, "items in order", [x.decode() for x in got], "WSGI StreamResponse delivered items out of order")
+        elif obs != want:
+            what = "WSGI StreamResponse: after %s the user's generator cleanup ran %d time(s), expected %d" % (outcome, obs["cleaned"], want["cleaned"]) \
+                if obs["cleaned"] != want["cleaned"] else "WSGI StreamResponse ended as %s, expected %s" % (outcome, want["outcome"])
+            ctx.violation(case, want, obs, what, {"module": "StreamWsgi"})
+        if "SrvClose" in case["calls"] or st0["raiseAt"]:
+            ctx.nontriv(("wsgi-stream",) + tuple(case["calls"]) + (st0["n"], st0["raiseAt"]))
+    del keep[:]
+
+
 def run(ctx):
     maxn = 2 if ctx.tier == "quick" else 3
     ctx.bounds = {"wsgi": {"MaxN": maxn, "pings": 2}}
@@ -370,6 +434,7 @@ def run(ctx):
     ne = replay_wsgi(ctx, g)
     ctx.bounds["wsgi"]["edges_replayed"] = ne
 
+    run_stream_wsgi(ctx, wd)
     c06_asgi.run_asgi(ctx, wd)
 
 
